@@ -174,6 +174,23 @@ pub fn gen(tier: &str, rng: &mut Rng, out: &mut Vec<String>) {
         // the same numbers through the private branch: N(m/…) must equal M/… (checked by the spec on each side)
         if j % 6 == 1 { push_path(out, &prv, &path.replacen('M', "m", 1)); }
     }
+    // (b') the SAME key material under another header, one request after the other (requests of a run are executed in order in
+    //      one process): another network's version bytes, another depth, another parent fingerprint — the child must carry its
+    //      own parent's network and depth + 1, whatever was derived before
+    for j in 0..(40 * scale) {
+        let (prv, pubk) = gen_key(rng, false);
+        let i = pool_normal(rng);
+        let path = format!("M/{}", comp_for(rng, i));
+        for (mi, master) in [&pubk, &prv].iter().enumerate() {
+            if mi == 1 && j % 2 == 0 { continue; }
+            let mut other = (*master).clone();
+            let cur = u32::from_be_bytes([other[0], other[1], other[2], other[3]]);
+            let nv: u32 = match cur { 0x0488ADE4 => 0x04358394, 0x04358394 => 0x0488ADE4, 0x0488B21E => 0x043587CF, _ => 0x0488B21E };
+            other[..4].copy_from_slice(&nv.to_be_bytes());
+            let mut deeper = (*master).clone(); deeper[4] = deeper[4].wrapping_add(3) % 250;
+            push_path(out, master, &path); push_path(out, &other, &path); push_path(out, &deeper, &path); push_path(out, master, &path);
+        }
+    }
     // (c) rejections: hardened from public, m from a public master, marked numbers >= 2^31, numbers >= 2^32
     for j in 0..(120 * scale) {
         let (prv, pubk) = gen_key(rng, false);
